@@ -885,13 +885,13 @@ func dispatchSpecs() []opSpec {
 			}
 			return tupleOf(anything, oneOf("nil"))
 		}},
-		{fn: "Decimal.IsInf", nDec: 1, extra: []AV{avInt{0}}, props: []string{"C15"}, spec: func(s *specEnv, cs []cls) func(AV) string {
+		{fn: "Decimal.IsInf", nDec: 1, extra: []AV{avInt{0}}, props: []string{"C15", "C12"}, spec: func(s *specEnv, cs []cls) func(AV) string {
 			return oneOf(fmt.Sprint(cs[0].class == "inf"))
 		}},
-		{fn: "Decimal.IsInf", nDec: 1, extra: []AV{avInt{1}}, props: []string{"C15"}, spec: func(s *specEnv, cs []cls) func(AV) string {
+		{fn: "Decimal.IsInf", nDec: 1, extra: []AV{avInt{1}}, props: []string{"C15", "C12"}, spec: func(s *specEnv, cs []cls) func(AV) string {
 			return oneOf(fmt.Sprint(cs[0].class == "inf" && !cs[0].neg))
 		}},
-		{fn: "Decimal.IsInf", nDec: 1, extra: []AV{avInt{-1}}, props: []string{"C15"}, spec: func(s *specEnv, cs []cls) func(AV) string {
+		{fn: "Decimal.IsInf", nDec: 1, extra: []AV{avInt{-1}}, props: []string{"C15", "C12"}, spec: func(s *specEnv, cs []cls) func(AV) string {
 			return oneOf(fmt.Sprint(cs[0].class == "inf" && cs[0].neg))
 		}},
 	}
